@@ -253,7 +253,8 @@ HeapLimit(m) == (IF m.rcfg.max_cache < 0 THEN 10485760 ELSE m.rcfg.max_cache) * 
 BatchChecks(S, m, e) ==
   << <<"C04", "receiver-call-did-not-return-ok-or-err", e.panic = 0, <<e.kind, e.arg, e.first_bad>> >>,
      <<"C04", "receiver-allocates-beyond-the-configured-limits", e.peak <= HeapLimit(m), <<e.kind, e.arg, e.peak>> >>,
-     <<"C04", "receiver-call-too-slow", e.maxus <= 1000000, <<e.kind, e.arg, e.maxus>> >> >>
+     <<"C04", "receiver-call-too-slow", e.maxus <= 2000000,      \* wall clock on a possibly loaded machine; the watchdog cuts at 3 s
+         <<e.kind, e.arg, e.maxus>> >> >>
   \o AllCbChecks(S, [m EXCEPT !.mutated = TRUE], e @@ [i |-> 0])
   \o (IF Has(e, "st") THEN MemChecks(S, m, e.st) ELSE <<>>)
 
